@@ -64,9 +64,12 @@ func NewLocalImporter(opts LocalImporterOptions) *LocalImporter {
 
 // Import a module by name.
 func (i *LocalImporter) Import(ctx context.Context, name string) (*object.Module, error) {
+	verifLock(&i.mutex, 0)
+	defer verifLock(&i.mutex, 1)
 	i.mutex.Lock()
 	defer i.mutex.Unlock()
 
+	verifAccess(i, "codeCache", false)
 	if code, ok := i.codeCache[name]; ok {
 		return object.NewModule(name, code), nil
 	}
@@ -81,6 +84,7 @@ func (i *LocalImporter) Import(ctx context.Context, name string) (*object.Module
 		return nil, err
 	}
 
+	verifAccess(i, "codeCache", true)
 	i.codeCache[name] = code
 
 	return object.NewModule(name, code), nil
